@@ -117,9 +117,17 @@ def judge(case):
                                 raise Violation("bulk-invalid-entry-report", f"bulk reported {res!r} for invalid entry {ent!r} in {pl!r}")
                 entries = [("#777", "#fff"), (t, b), ("#000", "#fff", True)]
                 try:
-                    out = make_readable_bulk(entries)
+                    if case.get("with_report"):
+                        # the report path must carry on past the invalid entry as well
+                        from vlib.sandbox import Capture, Scratch
+
+                        with Scratch("c14r_"):
+                            with Capture():
+                                out = make_readable_bulk(entries, save_report=True)
+                    else:
+                        out = make_readable_bulk(entries)
                 except Exception as e:
-                    raise Violation(exc_bucket(e), f"make_readable_bulk with invalid entry ({t!r}, {b!r}) raised {e!r}")
+                    raise Violation(exc_bucket(e), f"make_readable_bulk{' (save_report=True)' if case.get('with_report') else ''} with invalid entry ({t!r}, {b!r}) raised {e!r}")
                 if len(out) != 3:
                     raise Violation("bulk-length", f"bulk returned {len(out)} results for 3 entries (invalid entry ({t!r}, {b!r}))")
                 status = out[1][1]
@@ -142,7 +150,7 @@ def strategy():
         st.tuples(x, order).map(lambda t: {"x": t[0], "order": t[1]}),
         x.map(lambda v: {"x": v}),
         st.tuples(x, y, order).map(lambda t: {"x": t[0], "y": t[1], "order": t[2]}),
-        st.tuples(x, pats).map(lambda t: {"x": t[0], "bulk": True, "bulk_patterns": t[1]}),
+        st.tuples(x, pats, st.integers(0, 3)).map(lambda t: dict({"x": t[0], "bulk": True, "bulk_patterns": t[1]}, **({"with_report": True} if t[2] == 0 else {}))),
     )
 
 
